@@ -87,6 +87,38 @@ pub fn run(ctx: &Ctx) -> i32 {
             ctx.sample(json!({"family": fam, "case": "[0, 1, 2, 1] vis=1011", "meaning": "levels of the 4 layers and their visible flags (bit i = layer i)"}));
         }
     }
+    // leaves with and without a cel: every subset of leaves present, every visibility assignment
+    let maxp = if thorough { 7 } else { 6 };
+    for n in 2..=maxp {
+        let fam = format!("forest-presence-n{}", n);
+        if !ctx.wants_family(&fam) {
+            continue;
+        }
+        let fs = forests(n);
+        let mut total = 0u64;
+        for lv in &fs {
+            let leaves = (0..n).filter(|i| !(i + 1 < n && lv[i + 1] > lv[*i])).count();
+            total += (1u64 << n) * (1u64 << leaves);
+        }
+        ctx.family(&fam, total, &format!("all {} forests of {} layers x all visible-flag assignments x every subset of the leaves holding a cel (the others are empty in that frame); frame image compared with the model", fs.len(), n), true);
+        fs.par_iter().for_each(|lv| {
+            let leaf_idx: Vec<usize> = (0..n).filter(|i| !(i + 1 < n && lv[i + 1] > lv[*i])).collect();
+            for vis in 0..(1u32 << n) {
+                for pres in 0..(1u32 << leaf_idx.len()) {
+                    let case = || format!("{:?} vis={:0w$b} present={:b}", lv, vis, pres, w = n);
+                    if !ctx.wants(&fam, &case) {
+                        continue;
+                    }
+                    let mut f = forest_sprite(lv, vis);
+                    // drop the cels of the leaves that are absent
+                    let absent: Vec<u16> = leaf_idx.iter().enumerate().filter(|(k, _)| pres >> k & 1 == 0).map(|(_, i)| *i as u16).collect();
+                    f.frames[0].chunks.retain(|c| !matches!(&c.body, Body::Cel(c) if absent.contains(&c.layer)));
+                    conform(ctx, &fam, &case, &f, &want);
+                }
+            }
+        });
+    }
+
     // deep chains, isolated in worker processes on 2 MiB threads
     if ctx.wants_family("chains") {
         let mut cases: Vec<(usize, Option<usize>)> = Vec::new();
